@@ -578,7 +578,7 @@ def save_configs(tier):
     small = sources('quick', small=True)
     base = [s for s in small if _src_name(s) in ('S:l/w=l/e=l', 'M:lg/w=lg/e=g', 'M:lL/w=l/e=L', 'M:slg/w=lg/e=s')]
     if tier != 'thorough':
-        pairs = random.Random(12).sample(pairs, 120)
+        pairs = random.Random(12).sample(pairs, 80)
     for src in base:
         for a, b in pairs:
             out.append(_cfg(src, [('save',), a, b, ('restore',)]))
@@ -616,7 +616,7 @@ def seq_configs(tier):
         plan = {2: None, 3: 6000, 4: 3000, 5: 3000}
         srcs = SEQ_SOURCES
     else:
-        plan = {2: 500, 3: 700, 4: 150, 5: 150}
+        plan = {2: 400, 3: 600, 4: 120, 5: 120}
         srcs = SEQ_SOURCES
     for n, count in plan.items():
         if count is None:
